@@ -378,3 +378,33 @@ PROPS["C13"] = dict(
 )
 
 NOT_YET = {}
+
+PROPS["C09"] = dict(
+    technique="Coq proofs on byte-faithful models: no-Panic for the key-exchange body parsers and the certificate-list indexing (every Go index / slice / nil dereference an explicit Panic result, oracles for gmsm), "
+              "invariants by induction over arbitrary record / datagram sequences for state machines of the input side of tlcp/conn.go and dtlcp/conn.go whose state carries the buffer sizes "
+              "(for every handshake layer, record protection, replay verdict), progress measures; refutation theorems where the datagram stack violates the property; "
+              "vm_compute correspondence through add-only hooks, scripted record traces and puppet-driven endpoint scenarios under watchdog + recover()",
+    level_text="Theorems for every byte string, every answer of the cryptographic library, every handshake layer and every record / datagram sequence: the parsers never reach an out-of-range index; "
+               "stream stack: c.hand <= 81923 bytes (65539 while waiting, 16384 after completion), rawInput <= one maximal record + one transport read, at most 16 consecutive non-advancing records, "
+               "every loop iteration consumes input; datagram stack: retryCount / fragmentReads limits, size of every reassembly buffer, progress, no handBuf growth after completion, and three refuted bounds "
+               "(findings K12, K13, K14).  The parser models are evaluated in Coq on the bodies the Go parsers were called with (class of the result and what reached gmsm must agree), the machines on scripted "
+               "record sequences against real endpoints at five handshake states (buffer sizes after every step must agree), and the bound predicates on the maxima observed in puppet-driven scenarios "
+               "(malformed message at every state, floods, garbage, foreign key types; both roles, both stacks).",
+    level_note="Trusted: Coq kernel + vm_compute; hand-written models tied by correspondence; X.509 / ASN.1 parsing and gmsm are exercised, not modelled (oracle arguments of the theorems); "
+               "bytes.Buffer capacity growth and the Go allocator are not modelled (the observed capacity of rawInput is checked against a fixed constant); the time-based cleanup of stale "
+               "reassembly buffers is not modelled (it only removes); the datagram-stack bounds on handBuf, on the number of reassembly buffers and on the recursion depth of readDatagram are refuted "
+               "(K12, K13, K14), what holds instead is stated as *_partial.",
+    code_names={1: "panic", 2: "hang-or-spin", 3: "stream-handshake-buffer-above-bound", 4: "stream-raw-input-buffer-above-bound",
+                5: "handshake-bytes-buffered-after-completion", 6: "more-than-16-consecutive-non-advancing-records-tolerated",
+                7: "datagram-handshake-buffer-above-bound", 8: "more-reassembly-buffers-than-maxHandshakeFragments",
+                9: "reassembly-buffer-bytes-above-bound", 10: "call-stack-grows-with-the-input", 11: "datagram-raw-buffer-above-bound",
+                "panic": "panic", "hang": "hang-or-spin"},
+    assumptions=["record protection never expands: the plaintext of a record is no longer than its protected fragment (premise non_expanding of the datagram-stack theorems; CBC strips IV, MAC and padding, GCM strips nonce and tag)",
+                 "one transport Read returns at most K bytes (premise of C09_t_rawinput; K is the spare capacity of rawInput, observed through the hook and checked against a fixed constant)",
+                 "the application drains the delivered plaintext before the next record is read (Conn.Read is called with c.input empty)",
+                 "bytes are below 256"],
+    trusted=["verif hooks VerifBufSizes09 (Conn, both packages) and the call wrappers VerifECCProcessCKX09, VerifGetECDHEPublicKey09, VerifECDHEProcessCKX09, VerifECCProcessSKX09, "
+             "VerifECDHEProcessSKX09, VerifECCGenerateCKX09, VerifECDHEClientKX09 (tlcp/verif_hooks_c09.go, dtlcp/verif_hooks_c09.go)",
+             "harness/internal/puppet (scripted peer with its own keys and transcript), tk.Wire / tk.VNet transports, the sampling transports of harness/cmd/hx/c09obs.go (runtime.Callers for the stack depth)",
+             "gmsm (sm2.Encrypt / Decrypt / VerifyASN1WithSM2, ecdh.P256().NewPublicKey) for the independently recomputed oracle answers"],
+)
